@@ -1,6 +1,6 @@
 CONSTANTS
  MaxN = 3
- PairN = 2
+ PairN = 1
  Family = "vertex"
 SPECIFICATION Spec
 INVARIANT EmitWitnesses
